@@ -453,7 +453,18 @@ int64_t cmb_process_wait_process(struct cmb_process *awaited)
         /* Yield to the dispatcher and collect the return signal value */
         const int64_t sig = (int64_t)cmi_coroutine_yield(NULL);
 
-        /* Possibly much later */
+        /*
+         * Possibly much later. If something else than the end of the awaited
+         * process woke us (a timer, say), we are still registered: deregister
+         * and drop any wakeup call that is already on its way.
+         */
+        if (cmi_process_remove_awaitable(me, CMI_PROCESS_AWAITABLE_PROCESS, awaited)) {
+            if (!cmi_slist_is_empty(&(awaited->waiters))) {
+                (void)cmi_process_remove_waiter(awaited, me);
+            }
+            (void)cmb_event_pattern_cancel(wakeup_event_process, me, CMB_ANY_OBJECT);
+        }
+
         return sig;
     }
 }
@@ -461,6 +472,7 @@ int64_t cmb_process_wait_process(struct cmb_process *awaited)
 /* Friendly functions in cmi_event.c, not part of the public interface */
 extern void cmi_event_add_waiter(uint64_t key, struct cmb_process *pp);
 extern bool cmi_event_remove_waiter(uint64_t key, const struct cmb_process *pp);
+extern void cmi_event_forget_waiter(uint64_t key, const struct cmb_process *pp);
 
 /*
  * cmb_process_wait_event - Wait for an event to occur.
@@ -485,7 +497,15 @@ int64_t cmb_process_wait_event(const uint64_t ev_handle)
     /* Yield to the dispatcher and collect the return signal value */
     const int64_t ret = (int64_t)cmi_coroutine_yield(NULL);
 
-    /* Possibly much later */
+    /*
+     * Possibly much later. If something else than the event woke us (a timer,
+     * say), we are still registered: deregister and drop any wakeup call that
+     * is already on its way.
+     */
+    if (cmi_process_remove_awaitable(me, CMI_PROCESS_AWAITABLE_EVENT, (void *)ev_handle)) {
+        cmi_event_forget_waiter(ev_handle, me);
+    }
+
     return ret;
 }
 
